@@ -700,6 +700,19 @@ class PathCond:
                         if implied:
                             acc.add(cs)
                         else:
+                            # several exclusions on one expression are one exclusion of the union
+                            if isinstance(a[1], tuple) and a[1] and a[1][0] == "not-in":
+                                others = [(e2, v2) for (e2, v2) in cs if e2 == a[0] and isinstance(v2, tuple) and v2 and v2[0] == "not-in"]
+                                if others:
+                                    vals = set(a[1][1])
+                                    for _, v2 in others:
+                                        vals |= set(v2[1])
+                                    try:
+                                        merged = tuple(sorted(vals))
+                                    except TypeError:
+                                        merged = tuple(sorted(vals, key=str))
+                                    a = (a[0], ("not-in", merged))
+                                    weaker = weaker + others
                             acc.add((cs - frozenset(weaker)) | {a})
             # forget phi values that no later switch reads
             if phi["locals"]:
